@@ -5,3 +5,6 @@ cd "$(dirname "$0")"
 export CARGO_NET_OFFLINE=true
 (cd lean && lake build CedarVerif driver)
 (cd harness && cargo build --offline)
+# C19: the `cedar` CLI binary from /repo's working tree (its own target dir inside the harness target dir)
+ROOT="$(pwd)"
+(cd /repo && CARGO_TARGET_DIR="$ROOT/harness/target/cli" cargo build --offline -p cedar-policy-cli)
